@@ -58,6 +58,8 @@ var (
 	sharedCT, sharedCTSnap     []byte
 )
 
+var encrNames2 = map[int]string{128: "aes-cbc-128", 192: "aes-cbc-192", 256: "aes-cbc-256"}
+
 func digest(v any) string {
 	b, _ := json.Marshal(v)
 	return string(b)
@@ -380,7 +382,12 @@ func runOp(kind string, g int, seed int64, i int) (out string) {
 			J{"c": 2, "tt": 2, "tid": []int{1, 2, 5}[g%3], "attr": "none", "at": 0, "av": 0, "avl": Oct{}},
 			J{"c": 3, "tt": 3, "tid": []int{1, 2, 12}[(g/3)%3], "attr": "none", "at": 0, "av": 0, "avl": Oct{}},
 			J{"c": 4, "tt": 4, "tid": []int{2, 14}[g%2], "attr": "none", "at": 0, "av": 0, "avl": Oct{}}}}
-		o := actProposalRoundtrip(e, J{"kind": "ike", "prop": pj, "wire": true})
+		// every other time the proposal is assembled in the owner's scratch transform lists, which are Reset and filled with the
+		// next negotiation's choices before the proposal is used
+		o := actProposalRoundtrip(e, J{"kind": "ike", "prop": pj, "wire": i%2 == 0, "scratch": i%2 == 1})
+		if want := encrNames2[[]int{128, 192, 256}[g%3]]; o["err"] == false && o["encr"] != want {
+			return fmt.Sprintf("absolute: the SA built from a proposal offering %v holds %v", want, o["encr"])
+		}
 		return digest(J{"err": o["err"], "encr": o["encr"], "integ": o["integ"], "prf": o["prf"], "dh": o["dh"], "back": o["back"]})
 	case "transform_stress":
 		// tight loop of transform -> algorithm lookups; every goroutine asks for a different key length / identifier mix
